@@ -33,6 +33,8 @@ package fmtp
 // equal up to case (both range loops; each produces every key of its map).
 //@ func paramsEqual
 //@ props C17
+// (the second loop can never find a mismatch the first one has not found: its return is dead code)
+//@ deadreturn 1
 //@ ensures result == (forall k string :: indom(valA, k) && indom(valB, k) ==> strings.EqualFold(valA[k], valB[k]))
 //@ modifies nothing
 //@ loop 0 invariant forall k string :: mapseen(valA, k) && indom(valB, k) ==> strings.EqualFold(valB[k], valA[k])
